@@ -296,43 +296,49 @@ func (c *replacerCompiler) compileImport(imp *ast.ImportSpec) ImportReplacer {
 // Replace adds a single import. Returns the name of the import that was
 // added.
 func (r ImportReplacer) Replace(d data.Data, cl Changelog, f *ast.File) (string, error) {
-	// name is the name we want to use for the named import, and pkgName is
-	// how the rest of the file references this import.
-	var name, pkgName string
-	if r.Name != nil {
-		// The name replacer will produce the value for the named
-		// import specified in the patch as-is, or if it was a
-		// metavariable, using the matched value.
-		//
-		// This is undesirable for the case where the named import
-		// matched an unnamed import. For that case, we want to ignore
-		// the recorded name. So, if the named import is a
-		// metavariable that matched an unnamed import, don't look up
-		// its recorded value.
-
-		var mdata importMetavarData
-		if r.NameIsMetavar {
-			data.Lookup(d, importMetavarKey(r.NameS), &mdata)
-			pkgName = r.NameS // default to metavar name
-		}
-
-		if !mdata.Unnamed {
-			namev, err := r.Name.Replace(d, cl, f.Pos()) // pos is irrelevant
-			if err != nil {
-				return "", err
-			}
-			name = namev.Interface().(*ast.Ident).Name
-			pkgName = name
-		}
-
-	} else {
-		pkgName = guessPackageName(r.Path)
+	name, pkgName, err := r.names(d, cl, f.Pos())
+	if err != nil {
+		return "", err
 	}
 
 	if !astutil.AddNamedImport(r.Fset, f, name, r.Path) {
 		return "", nil
 	}
 	return pkgName, nil
+}
+
+// names reports the name under which the import is written into the file,
+// if any, and the name by which the rest of the file refers to the package.
+func (r ImportReplacer) names(d data.Data, cl Changelog, pos token.Pos) (name, pkgName string, _ error) {
+	if r.Name == nil {
+		return "", guessPackageName(r.Path), nil
+	}
+
+	// The name replacer will produce the value for the named
+	// import specified in the patch as-is, or if it was a
+	// metavariable, using the matched value.
+	//
+	// This is undesirable for the case where the named import
+	// matched an unnamed import. For that case, we want to ignore
+	// the recorded name. So, if the named import is a
+	// metavariable that matched an unnamed import, don't look up
+	// its recorded value.
+
+	var mdata importMetavarData
+	if r.NameIsMetavar {
+		data.Lookup(d, importMetavarKey(r.NameS), &mdata)
+		pkgName = r.NameS // default to metavar name
+	}
+
+	if !mdata.Unnamed {
+		namev, err := r.Name.Replace(d, cl, pos) // pos is irrelevant
+		if err != nil {
+			return "", "", err
+		}
+		name = namev.Interface().(*ast.Ident).Name
+		pkgName = name
+	}
+	return name, pkgName, nil
 }
 
 // ImportsReplacer replaces a block of imports.
@@ -392,10 +398,15 @@ func (r ImportsReplacer) Cleanup(d data.Data, f *ast.File, newNames []string) er
 		numSpecs[d] = len(d.Specs)
 	}
 
-	// Imports that the "+" side lists as well: those on context lines.
+	// Imports that the "+" side lists as well, as the patch spells them
+	// (those on context lines) and as they are written into this file.
 	onPlus := make(map[importKey]struct{})
+	written := make(map[string]importKey) // "name path" in the file => import of the patch
 	for _, imp := range r.Imports {
 		onPlus[importKey(imp.NameS+" "+imp.Path)] = struct{}{}
+		if name, _, err := imp.names(d, NewChangelog(), f.Pos()); err == nil {
+			written[name+" "+imp.Path] = importKey(imp.NameS + " " + imp.Path)
+		}
 	}
 
 	// Delete matched imports that are no longer used.
@@ -424,6 +435,15 @@ func (r ImportsReplacer) Cleanup(d data.Data, f *ast.File, newNames []string) er
 		// looks unused. It goes only if the patch deletes it, not if the
 		// patch has it on a context line.
 		if _, ok := onPlus[matched.Key]; ok && (importName == "_" || importName == ".") {
+			continue
+		}
+
+		// An import that the "+" side asks for in so many words is there
+		// afterwards: "-import x \"p\"" with a metavariable x, "+import
+		// \"p\"", on a file that imports p without a name. It was not added,
+		// being there already; it is not deleted either. (A context line
+		// is another matter: such an import goes when nothing uses it.)
+		if key, ok := written[importName+" "+imp]; ok && key != matched.Key {
 			continue
 		}
 
